@@ -264,7 +264,7 @@ theorem mem_compatRetypes (cls : String) (key : ArgD â†’ ArgD â†’ List (String Ã
   simp [hb, hs, compatRetype, hsev, hne]
 
 /-- the source has the `_compatible` helper and it gives the COMPATIBLE severity (re-extracted every run) -/
-theorem compatible_retype_severity : PyGql.Generated.Differ.compatibleRetypeSeverity = some 0 := rfl
+private theorem compatible_retype_severity : PyGql.Generated.Differ.compatibleRetypeSeverity = some 0 := rfl
 
 /-- **A compatible retyping of an argument is reported** (was finding G5: nothing was reported): the differ
     considers `a.type -> b.type` safe and the two differ â‡’ a `FieldArgumentChangedType` naming the argument, COMPATIBLE. -/
